@@ -31,6 +31,7 @@ type gbEst struct {
 	StartMs int    `json:"start_ms"`
 	Keep    bool   `json:"keep"`   // keep the dialled connection and call it again at the end
 	NoPeer  string `json:"nopeer"` // "", "dial_only", "accept_only": the other call never comes
+	Pre     string `json:"pre"`    // "abandoned_accept": before the establishment the accepting side reserves the id with the raw Accept and closes the listener unused
 }
 type gbHold struct {
 	Gate string `json:"gate"`
@@ -343,6 +344,18 @@ func runGBCase(c gbCase, bin, tmp string, t *testing.T) map[string]interface{} {
 			rec.Log("ret.accept", acceptSide, int64(e.ID), 0, map[string]interface{}{"dir": e.Dir})
 		}
 		gap := time.Duration(e.GapMs) * time.Millisecond
+		if e.Pre == "abandoned_accept" {
+			if e.Dir == "h2p" {
+				if r, err := stub.Do(vp.Cmd{Op: "accept_close", ID: e.ID}); err != nil || !r.OK {
+					o.Err = "abandoned accept: " + fmt.Sprint(err) + " " + r.Err
+				}
+			} else if gb, isG := stub.Broker.(vp.GRPCAPI); isG {
+				if err := gb.AcceptClose(e.ID); err != nil {
+					o.Err = "abandoned accept: " + err.Error()
+				}
+			}
+			time.Sleep(100 * time.Millisecond)
+		}
 		switch {
 		case e.NoPeer == "dial_only", e.NoPeer == "dial_again":
 			// (dial_again: the server accepted for this id by an earlier establishment is still serving)
